@@ -125,6 +125,9 @@ type BuildOpts struct {
 	// Wide != 0: the terminal 'b' of the model is built as this (multi-byte) rune; the input is
 	// transliterated accordingly (widen) and offsets are mapped back before they are compared
 	Wide rune
+	// RegKw: the terminal 'a' registers a keyword in the context every time it runs (a legal thing for
+	// a parser to do; it must not cost anybody their cached results)
+	RegKw bool
 }
 
 // Built is a grammar turned into parsers.
@@ -247,6 +250,13 @@ func Build(g *Grammar, o BuildOpts) *Built {
 				tr = o.Wide
 			}
 			inner := terminal.Rune(tr)
+			if o.RegKw && tr == 'a' {
+				plain := inner
+				inner = parser.Func(func(ctx *parsley.Context, l data.IntMap, pos parsley.Pos) (parsley.Node, data.IntSet, parsley.Error) {
+					ctx.RegisterKeywords("kw")
+					return plain.Parse(ctx, l, pos)
+				})
+			}
 			p = inner
 			if probe != nil && probe.LogFails {
 				p = parser.Func(func(ctx *parsley.Context, l data.IntMap, pos parsley.Pos) (parsley.Node, data.IntSet, parsley.Error) {
@@ -541,6 +551,7 @@ func NewCtxAt(input string, preLen int) (*parsley.Context, *text.File, int) {
 	if preLen <= 0 {
 		return parsley.NewContext(parsley.NewFileSet(f), text.NewReader(f)), f, 1
 	}
-	fs := parsley.NewFileSet(text.NewFile("pre", []byte(strings.Repeat("x", preLen))), f)
+	// (the parsed file is neither the first nor the last of its set)
+	fs := parsley.NewFileSet(text.NewFile("pre", []byte(strings.Repeat("x", preLen))), f, text.NewFile("post", []byte("y\nz")))
 	return parsley.NewContext(fs, text.NewReader(f)), f, preLen + 2
 }
